@@ -341,6 +341,9 @@ func c02(w *core.World, r *core.Report) {
 		}
 	}
 
+	// ---- SEP (shared with C11): the owner's path set (PathSet) and the keys index decide which stored entries are loaded and marked
+	ruleSEP(w, r)
+
 	// ---- EQUAL-FIELDS
 	r.Rule("EQUAL-FIELDS", 3, "cache.Update.EqualSkipPath compares owner, priority and value (all three fields in the backward slice of its result); LeafVariants.Add decides on it.")
 	{
